@@ -285,10 +285,13 @@ def validate_trace(trace_module, cfg_path, trace, wd, parts=8, timeout=1800):
             inv, scn, line = m.group(1), int(m.group(2)), int(m.group(3))
             sigs = re.findall(r'"([^"]+)"', m.group(4) or "")
             key = (inv, scn)
+            # a report without signatures means some recorded reason has none: the scenario can then never
+            # count as a known finding, whatever other reports of the same scenario carry
             if key not in viols:
-                viols[key] = dict(inv=inv, scn=scn, line=line, sigs=sigs, file=fn)
+                viols[key] = dict(inv=inv, scn=scn, line=line, sigs=sigs, file=fn, unsigned=not sigs)
             else:
                 viols[key]["sigs"] = sorted(set(viols[key]["sigs"]) | set(sigs))
+                viols[key]["unsigned"] = viols[key]["unsigned"] or not sigs
     if accepted != nlines:
         raise ToolError("trace validation consumed %d of %d events" % (accepted, nlines))
     return list(viols.values()), nlines
